@@ -4,7 +4,7 @@
 
 use std::sync::atomic::{AtomicU64, Ordering};
 
-pub const N_COUNTERS: usize = 64;
+pub const N_COUNTERS: usize = 1024;
 
 // counter slots
 pub const C_NODES: usize = 0;
@@ -30,7 +30,7 @@ pub const C_MACHINERY: usize = 19;
 pub const C_TRIVIAL_MOVES: usize = 20;
 pub const C_MAX_FILE_ENTRIES: usize = 21;
 pub const C_SNAP_NODES: usize = 22;
-pub const C_USER: usize = 32; // 32.. free for explorers
+pub const C_USER: usize = 64; // 64.. free for explorers
 
 pub struct Shm {
     base: *mut u8,
